@@ -24,6 +24,10 @@ Added after the second and third seeding rounds:
                 before it is installed (D11)
   encoding      + consumer totality: every path through on_dependencies_available reaches the three queueing loops (or the
                 Unknown-dependencies exclusion)
+
+Added after the sixth seeding round:
+  encoding/marked-implies-queued  a solvable / package marked as encoded is queued for encoding on every path (C02-17)
+  result-must-use / soft-loop     an interrupted or failed run is never presented as a solution (C15-12, C05-14)
 """
 from common import *
 import q, enc, mech
